@@ -30,7 +30,7 @@ add('C05', 'l1', 'Stage 1 (parser): hand-transcribed CLDR rules cross-checked ag
 add('C06', 'l1', 'Generated acyclic `$t` reference graphs (all target and argument kinds, null/inherited targets, namespaces) and mutated negative classes (missing target, group target, cycles); resolved trees from the parser are evaluated and compared with structural substitution on the AST; negative classes must be rejected naming the key.',
     L1_NOTE + '`$t` inside a component body is outside the generated domain.')
 add('C07', 'l1', 'Generated key-set variations (absent / null / surplus keys and groups at every depth, inherits maps, kind flips); the multiset of MissingKey/SurplusKey diagnostics and the accessible key set from parse_locales are compared with the model.',
-    L1_NOTE + 'the suppress_key_warnings build is not covered.')
+    L1_NOTE + 'three stages: parser level, the same on a harness build with suppress_key_warnings, and negative compile probes on generated crates.')
 add('C08', 'l1', 'Generated keys whose per-locale values differ in kind and member sets (and deliberate count conflicts); the InterpolOrLit computed by the parser is compared with the union over locales of the AST members after substitution.',
     L1_NOTE + 'the typed-builder (compile-time) half needs generated crates.')
 add('C09', 'l1', 'Grammar-aware adversarial mutations of generated projects (delimiters, multi-byte characters, hostile ranges / bounds / counts / references / key names, mutated manifests) run in-process under catch_unwind through parse_locales, the build-script API and the code generator; deep / long values run in child processes with an 8 MiB stack; regression inputs of all earlier panics. Oracle: Ok or a non-empty error, never a panic, abort or signal.',
